@@ -43,6 +43,29 @@ def run(F):
             for t0 in entry_tuples(kinds):
                 stats["entries"] += 1
                 S.summary(body, ("param", i), t0)
+        # closures that capture a handle and hand it to crate-internal (Repr-level) functions: the
+        # captured reference is analysed like a receiver (all kinds, shared)
+        if body.j["kind"] == "closure":
+            ups = set()
+            for bb, t in body.calls():
+                k = t.get("local_key")
+                if not k or not (k.startswith("repr::") or callee_name(t) in CONTRACTS):
+                    continue
+                for a in t["args"]:
+                    e = strip_refs(body.origin_operand(a))
+                    while e[0] in ("ref", "rawptr", "deref") or (e[0] == "field" and not (len(e) > 3 and e[3] and base_type(e[3]) in TRACKED_TYPES and strip_refs(e[1]) in (("deref", ("param", 1)), ("param", 1)))):
+                        if e[0] == "field":
+                            e = strip_refs(e[1])
+                        else:
+                            e = strip_refs(e[2] if e[0] != "deref" else e[1])
+                        if e[0] not in ("ref", "rawptr", "deref", "field"):
+                            break
+                    if e[0] == "field" and len(e) > 3 and e[3] and base_type(e[3]) in TRACKED_TYPES:
+                        ups.add(e[2])
+            for u in sorted(ups):
+                for t0 in entry_tuples(("I", "S", "H")):
+                    stats["entries"] += 1
+                    S.summary(body, ("upvar", u), t0)
         # tracked locals: raw Repr/HeapBuffer locals used as receivers of local calls
         locs = set()
         for bb, t in body.calls():
@@ -54,6 +77,14 @@ def run(F):
                     e = strip_refs(e[2] if e[0] != "deref" else e[1])
                 if e[0] in ("local", "mem") and base_type(body.local_ty(e[1])) in ("repr::Repr", "repr::heap_buffer::HeapBuffer") and not (1 <= e[1] <= body.arg_count):
                     locs.add(e[1])
+                # a LeanString local whose inner Repr is handed to a crate-internal function directly
+                # (bypassing the safe API): track it too
+                if e[0] == "field" and e[2] == 0:
+                    r = strip_refs(e[1])
+                    while r[0] in ("ref", "rawptr", "deref"):
+                        r = strip_refs(r[2] if r[0] != "deref" else r[1])
+                    if r[0] in ("local", "mem") and body.local_ty(r[1]) == "LeanString" and not (1 <= r[1] <= body.arg_count) and (t["local_key"].startswith("repr::")):
+                        locs.add(r[1])
         for l in sorted(locs):
             stats["tracked_locals"] += 1
             t0 = T(kind="U", uniq=False, ref="own", acq=False, inc=0, asg=False, dirty=False, ret=None, facts=frozenset())
